@@ -73,3 +73,60 @@ def disjunctive(body, init, block_fn, edge_fn=None, start=0, max_states=4000):
                     if s not in work:
                         work.append(s)
     return {k: frozenset(v) for k, v in states.items()}
+
+
+def with_flags(body, block_fn):
+    """Wrap a block transfer function so that states also remember the outcome of tests on plain
+    bool flags (`if *has_x`), and a later test of the same flag along the same path follows only
+    the consistent edge.  Returns (init_wrap, block_fn2, edge_fn2); the state is (inner, flags)."""
+    import decide
+    dec_cache = {}
+
+    def decisions(bb):
+        if bb not in dec_cache:
+            res = {}
+            t = body.term(bb)
+            if t[0] == "switch":
+                try:
+                    sd = decide.switch_decisions(body, bb)
+                except CheckerError:
+                    sd = None
+                if sd:
+                    tg = {}
+                    for tgt, d in sd:
+                        tg.setdefault(tgt, []).append(d)
+                    for tgt, ds in tg.items():
+                        if len(ds) == 1 and ds[0][0] == "flag":
+                            res[tgt] = (ds[0][1], ds[0][2])
+            dec_cache[bb] = res
+        return dec_cache[bb]
+
+    def block2(bb, st):
+        inner, flags = st
+        out = block_fn(bb, inner)
+        kill = set()
+        t = body.term(bb)
+        for (root, val) in flags:
+            if root[0] == "call" and t[0] == "call" and len(root) > 2 and root[2] == bb:
+                kill.add((root, val))
+            elif root[0] == "local":
+                for s_ in body.stmts(bb):
+                    if s_[0] == "=" and len(s_[1]) == 1 and s_[1][0] == root[1]:
+                        kill.add((root, val))
+                if t[0] == "call" and t[3] == [root[1]]:
+                    kill.add((root, val))
+        return (out, frozenset(flags - kill) if kill else flags)
+
+    def edge2(bb, succ, st):
+        d = decisions(bb).get(succ)
+        if d is None:
+            return st
+        root, val = d
+        inner, flags = st
+        if (root, not val) in flags:
+            return None
+        if (root, val) in flags:
+            return st
+        return (inner, frozenset(flags | {(root, val)}))
+
+    return (lambda init: (init, frozenset())), block2, edge2
